@@ -679,7 +679,26 @@ func (en *env) selector(v *ESelector) tval {
 	}
 	a, t, isAddr := en.fieldAccess(v)
 	if isAddr {
-		return tval{term: en.e.loadValue(en.st, a, t), typ: t}
+		val := en.e.loadValue(en.st, a, t)
+		// Go's memory-safety invariant for a reference read out of memory in a specification:
+		// it points to an object that is allocated in the state the clause is evaluated in
+		// (the same assumption every load in the program gets)
+		switch t.Underlying().(type) {
+		case *types.Slice, *types.Pointer, *types.Map, *types.Chan:
+			if !strings.Contains(val, "q_") && !en.noDef && en.st != nil && en.st.reach != "false" {
+				k := "wf|" + en.st.next + "|" + val
+				if !en.e.invSeen[k] {
+					en.e.invSeen[k] = true
+					switch t.Underlying().(type) {
+					case *types.Slice:
+						en.e.assume(en.st, and(app("slice_wf", val), fmt.Sprintf("(< (rootn (s_base %s)) %s)", val, en.st.next)))
+					default:
+						en.e.assume(en.st, and(app("ref_wf", val), fmt.Sprintf("(< (rootn %s) %s)", val, en.st.next)))
+					}
+				}
+			}
+		}
+		return tval{term: val, typ: t}
 	}
 	return tval{term: a, typ: t}
 }
